@@ -151,19 +151,34 @@ structure StoreRes where
   /-- `lastRetractionForThatKeyOnThisSide` -/
   last : Bool
 
+/-- the `streamJoinItem.values` of the item found for `key` (a fresh empty one if there is none) -/
+def subsOf (key : Row) (t : Tree) : Subs :=
+  match SAL.get key t with
+  | none => []
+  | some (_, s) => s
+
+/-- the `EventTimes` of the subitem found for the record values (empty for a fresh subitem) -/
+def timesOf (x : Row) (s : Subs) : List T :=
+  match SAL.get x s with
+  | none => []
+  | some (_, ts) => ts
+
+/-- `append(EventTimes, record.EventTime)` / `EventTimes[1:]`; `none` = slicing an empty slice panics -/
+def newTimes (times : List T) (r : Rec) : Option (List T) :=
+  if r.retr then (match times with | [] => none | _ :: ts => some ts) else some (times ++ [r.et])
+
+/-- write the subitem back: `if len(EventTimes) == 0 { values.Delete(subitem) }` -/
+def updSubs (x : Row) (ts : List T) (s : Subs) : Subs :=
+  if ts.isEmpty then SAL.del x s else SAL.put x ts s
+
 /-- the "update count in my record tree" block of `receiveRecord`; `none` = `EventTimes[1:]` of an empty slice -/
 def store (t : Tree) (key : Row) (r : Rec) : Option StoreRes :=
-  let found := SAL.get key t
-  let subs : Subs := match found with | none => [] | some (_, s) => s
-  let times : List T := match SAL.get r.vals subs with | none => [] | some (_, ts) => ts
-  let times' : Option (List T) :=
-    if r.retr then (match times with | [] => none | _ :: ts => some ts) else some (times ++ [r.et])
-  match times' with
+  match newTimes (timesOf r.vals (subsOf key t)) r with
   | none => none
   | some ts =>
-    let subs' := if ts.isEmpty then SAL.del r.vals subs else SAL.put r.vals ts subs
-    if subs'.isEmpty then some { tree := SAL.del key t, first := found.isNone, last := true }
-    else some { tree := SAL.put key subs' t, first := found.isNone, last := false }
+    let subs' := updSubs r.vals ts (subsOf key t)
+    some { tree := if subs'.isEmpty then SAL.del key t else SAL.put key subs' t,
+           first := (SAL.get key t).isNone, last := subs'.isEmpty }
 
 /-- the Scan producing one joined record per stored event time of every matching row -/
 def joinRows (amLeft : Bool) (r : Rec) : Subs → List Rec
@@ -204,9 +219,8 @@ def sjRecv (cfg : Cfg) (my other : Option Tree) (amLeft : Bool) (r : Rec) (osr :
           | some t => (store t key r).map (fun s => some s.tree)
       match my', other with
       | some my', some ot =>
-        match SAL.get key ot with
-        | none => some (my', [])
-        | some (_, subs) => some (my', joinRows amLeft r subs)
+        -- `otherRecords.Get(key)`; not found: nothing to trigger (= the Scan over no subitems)
+        some (my', joinRows amLeft r (subsOf key ot))
       | _, _ => none
 
 /-- `OuterJoin.receiveRecord`; `none` = panic -/
@@ -225,14 +239,13 @@ def ojRecv (cfg : Cfg) (my other : Option Tree) (amLeft : Bool) (r : Rec) :
         match store t key r with
         | none => none
         | some s =>
-          match SAL.get key ot with
-          | none => some (some s.tree, pad)
-          | some (_, subs) =>
-            if subs.isEmpty then some (some s.tree, pad)
-            else some (some s.tree,
-              (if s.first && otherOuter then nullRows amLeft r true subs else [])
-              ++ joinRows amLeft r subs
-              ++ (if s.last && otherOuter then nullRows amLeft r false subs else []))
+          -- `itemTyped, ok := otherRecords.Get(key); if !ok || itemTyped.values.Len() == 0`
+          let subs := subsOf key ot
+          if subs.isEmpty then some (some s.tree, pad)
+          else some (some s.tree,
+            (if s.first && otherOuter then nullRows amLeft r true subs else [])
+            ++ joinRows amLeft r subs
+            ++ (if s.last && otherOuter then nullRows amLeft r false subs else []))
       | _, _ => none
 
 def recv (cfg : Cfg) (my other : Option Tree) (amLeft : Bool) (r : Rec) (osr : Bool) :
